@@ -422,6 +422,8 @@ class NetworkService(ModelElement):
         :param kwargs: typically labels and capacities to put on the interface facing the other service
         """
         assert(isinstance(ns, NetworkService))
+        if ns.node_id == self.node_id:
+            raise TopologyException(f"Network service {self.name} cannot peer with itself")
         self_iface = self.add_interface(name=self.name + '-' + ns.name, itype=InterfaceType.ServicePort, **kwargs)
         other_iface = None
         try:
